@@ -15,6 +15,11 @@ def base_sampler(dom):
         if not cplx:
             if dom == 'R':
                 v = rng.normal(size=n)
+            elif dom == 'Rzero':
+                v = rng.normal(size=n)
+                v[rng.random(size=n) < 0.5] = 0.0          # exact zeros at the base point
+                if n:
+                    v[int(rng.integers(n))] = 0.0
             elif dom == 'pos':
                 v = rng.uniform(0.3, 3.0, size=n)
             elif dom == 'gtm1':
